@@ -1,7 +1,7 @@
 #!/bin/sh
 # seedrepo.sh <seeded-id> : make a scratch copy of /repo's tree with seeded/<id>/patch.diff applied; prints its path (use as VERIF_REPO)
 set -e
-d=/var/tmp/asl-verif-main/seedrepo-$1-manual
+d=${VERIF_SCRATCH:-/var/tmp/asl-verif-main}/seedrepo-$1-manual
 rm -rf "$d"; mkdir -p "$d"
 rsync -a --exclude _build --exclude .git /repo/ "$d/"
 patch -p1 -s -d "$d" -i "$(cd "$(dirname "$0")/.." && pwd)/seeded/$1/patch.diff"
